@@ -87,6 +87,21 @@ class Normaliser:
         outer = self
 
         class R(ast.NodeTransformer):
+            def visit_Call(s, n):
+                # len(X) with X = [g(e) for e in Y] (one generator, no filter) or list(Y): the length of Y
+                if isinstance(n.func, ast.Name) and n.func.id == "len" and len(n.args) == 1 and isinstance(n.args[0], ast.Name) and depth < 4:
+                    d = outer.single_def.get(n.args[0].id) if n.args[0].id not in outer.f.params() else None
+                    src = None
+                    if isinstance(d, ast.ListComp) and len(d.generators) == 1 and not d.generators[0].ifs and isinstance(d.generators[0].iter, ast.Name):
+                        src = d.generators[0].iter
+                    elif isinstance(d, ast.Call) and isinstance(d.func, ast.Name) and d.func.id == "list" and len(d.args) == 1 and isinstance(d.args[0], ast.Name):
+                        src = d.args[0]
+                    elif isinstance(d, ast.List) and not d.elts:
+                        src = outer._filled_per_element(n.args[0].id)
+                    if src is not None:
+                        return ast.parse(outer.canon(ast.Call(func=ast.Name(id="len", ctx=ast.Load()), args=[src], keywords=[]), depth + 1), mode="eval").body
+                return s.generic_visit(n)
+
             def visit_Name(s, n):
                 if isinstance(n.ctx, ast.Load) and n.id in outer.single_def and depth < 4 and n.id not in outer.f.params():
                     d = outer.single_def[n.id]
@@ -94,6 +109,22 @@ class Normaliser:
                         return ast.parse(outer.canon(d, depth + 1), mode="eval").body
                 return n
         return norm(R().visit(copy.deepcopy(e)))
+
+    def _filled_per_element(self, name):
+        """X = [] filled by exactly one `X.append(...)` per iteration of `for t in Y` (and touched in no other way): the name Y, else None"""
+        uses = [n for n in ast.walk(self.f.node) if isinstance(n, ast.Name) and n.id == name and isinstance(n.ctx, ast.Load)]
+        muts = [n for n in ast.walk(self.f.node) if isinstance(n, ast.Call) and isinstance(n.func, ast.Attribute) and isinstance(n.func.value, ast.Name)
+                and n.func.value.id == name and n.func.attr in ("append", "extend", "insert", "pop", "remove", "clear", "sort", "reverse")]
+        stores = [n for n in ast.walk(self.f.node) if isinstance(n, (ast.Subscript, ast.Attribute)) and isinstance(n.ctx, (ast.Store, ast.Del))
+                  and isinstance(n.value, ast.Name) and n.value.id == name]
+        if len(muts) != 1 or muts[0].func.attr != "append" or stores:
+            return None
+        for lp in ast.walk(self.f.node):
+            if isinstance(lp, ast.For) and isinstance(lp.iter, ast.Name) and not lp.orelse \
+                    and any(isinstance(st, ast.Expr) and st.value is muts[0] for st in lp.body) \
+                    and not any(isinstance(x, (ast.Break, ast.Continue)) for x in ast.walk(lp)):
+                return lp.iter
+        return None
 
     def monos(self, e, env) -> list[Mono] | None:
         """All monomials the expression may denote (one per branch of conditional sub-expressions)."""
@@ -103,6 +134,12 @@ class Normaliser:
         if isinstance(e, ast.Name):
             if e.id in env:
                 return env[e.id]
+            g = self.f.module.global_consts.get(e.id) if e.id not in self.assign_count and e.id not in self.f.params() else None
+            if g is not None:
+                from .e5.interp import _fold_const
+                c = _fold_const(g)
+                if c is not None:
+                    return [const(c)]           # a module-level numeric constant bound once
             return [atom(e.id)]
         if isinstance(e, ast.UnaryOp) and isinstance(e.op, ast.USub):
             return None
@@ -142,10 +179,12 @@ class Normaliser:
                 if b is None:
                     return None
                 return [x.pow(Fraction(1, 2)) for x in b]
-            if r in ("torch.linalg.norm", "numpy.linalg.norm", "torch.norm") and len(e.args) >= 1:
-                if len(e.args) > 1 or e.keywords:
+            method_norm = r is None and isinstance(e.func, ast.Attribute) and e.func.attr == "norm" and not e.args and not e.keywords
+            if (r in ("torch.linalg.norm", "numpy.linalg.norm", "torch.norm") and len(e.args) >= 1) or method_norm:
+                if not method_norm and (len(e.args) > 1 or e.keywords):
                     return None
-                cur = strip_wrappers(e.args[0])
+                # S.norm() is the method spelling of the 2-norm of S
+                cur = strip_wrappers(e.func.value if method_norm else e.args[0])
                 for _ in range(4):
                     if isinstance(cur, ast.Name) and cur.id in self.single_def and cur.id not in self.f.params():
                         cur = strip_wrappers(self.single_def[cur.id])
@@ -156,10 +195,46 @@ class Normaliser:
                 return self.monos(e.args[0], env)
             return None
         if isinstance(e, ast.IfExp):
+            # a branch taken only when there is no bond to truncate (order <= 1) carries no allowance obligation
+            dead = self._no_bond_branch(e.test)
+            if dead == "orelse":
+                return self.monos(e.body, env)
+            if dead == "body":
+                return self.monos(e.orelse, env)
             a, b = self.monos(e.body, env), self.monos(e.orelse, env)
             if a is None or b is None:
                 return None
             return a + b
+        return None
+
+    def _no_bond_branch(self, test):
+        """'body' / 'orelse' when that branch of `X if test else Y` is reached only for trains without bonds (order <= 1): the test compares an
+        order (len(...) or a local defined as one, possibly minus 1) with a small constant"""
+        if not (isinstance(test, ast.Compare) and len(test.ops) == 1 and isinstance(test.comparators[0], ast.Constant)
+                and isinstance(test.comparators[0].value, int)):
+            return None
+        c = test.comparators[0].value
+        txt = self.canon(test.left).replace(" ", "")
+        import re as _re
+        if _re.fullmatch(r"len\([^()]*\)", txt):
+            off = 0
+        elif _re.fullmatch(r"len\([^()]*\)-1", txt):
+            off = 1
+        else:
+            return None
+        op = test.ops[0]
+        # order - off  OP  c   holds exactly for orders >= 2 ?
+        def holds(order):
+            v = order - off
+            return {ast.Gt: v > c, ast.GtE: v >= c, ast.Lt: v < c, ast.LtE: v <= c, ast.Eq: v == c, ast.NotEq: v != c}.get(type(op), None)
+        if holds(1) is None:
+            return None
+        big = all(holds(o) for o in (2, 3, 5, 50))
+        small = holds(1)
+        if big and not small:
+            return "orelse"      # the else branch is the order-1 case
+        if not any(holds(o) for o in (2, 3, 5, 50)) and small:
+            return "body"
         return None
 
     def exponents(self, e) -> list[Fraction] | None:
